@@ -30,6 +30,13 @@ func registerReplay(pattern string, f replayTemplate) {
 	}{regexp.MustCompile(pattern), f})
 }
 
+func registerReplayFirst(pattern string, f replayTemplate) {
+	replayTemplates = append([]struct {
+		re *regexp.Regexp
+		f  replayTemplate
+	}{{regexp.MustCompile(pattern), f}}, replayTemplates...)
+}
+
 // parseModel extracts "(define-fun name () Sort value)" entries of 0-ary symbols.
 func parseModel(out string) map[string]string {
 	m := map[string]string{}
